@@ -272,7 +272,6 @@ DEFECTS = {
     "nonconf.covmat_solve":    "CovMat::solve has no dimension check",
     "nonconf.bandmat_solve":   "BandMat::solve has no dimension check",
     "nonconf.svd_solve":       "SVD::solve has no dimension check of rhs",
-    "svd.zero_dim":            "SVD (and pinv) of a matrix with zero rows or columns writes U[1]/V[1] outside new Float*[1]",
 }
 
 
@@ -363,7 +362,9 @@ def install(ctx, d, exp, post, tag, tol=None, name=None):
             err = np.abs(act.val - exp.val)
         err = np.where(known, err, 0.0)
         err = np.where(np.isnan(err), np.inf, err)
-        rat = np.where(known, err / t, 0.0)
+        with np.errstate(all="ignore"):
+            rat = np.where(known, err / t, 0.0)
+        rat = np.where(np.isnan(rat), 0.0, rat)
         worst = float(np.max(rat))
         if name and worst <= 1.0:
             ctx.stats.ratio(name, worst)
@@ -737,7 +738,7 @@ def step_chol(ctx, cmd, ans, post):
             else:
                 L, D = ldl_parts(act.val)
                 R = (L * D) @ L.T
-            tol = 50 * (n + 1) * EPS * max(amax(A), 1e-300) * (n + 1)
+            tol = 400 * (n + 1) * EPS * max(amax(A), 1e-300) * (n + 1)
             e = amax(R - A)
             ctx.ratio("chol_reproduce." + a.kind, e, tol)
             if e > tol:
@@ -868,12 +869,12 @@ def check_svd(A, U, W, V, tag):
     if not (np.all(np.isfinite(U)) and np.all(np.isfinite(W)) and np.all(np.isfinite(V))):
         return [(tag + ".value", "non-finite factors")], 0.0
     sc = max(amax(A), 1e-300)
-    tol = 100 * (m + n) * EPS * sc * max(m, n)
+    tol = 100 * (m + n + 1) * EPS * sc * max(m, n, 1)
     e = amax((U * W) @ V.T - A)
     worst = max(worst, e / tol)
     if e > tol:
         out.append((tag + ".reconstruct", "|U W V' - A| = %.3g, tolerance %.3g" % (e, tol)))
-    tolo = 100 * (m + n) * EPS * max(m, n)
+    tolo = 100 * (m + n + 1) * EPS * max(m, n, 1)
     e = amax(V.T @ V - np.eye(n))
     worst = max(worst, e / tolo)
     if e > tolo:
@@ -900,7 +901,7 @@ def check_pinv(A, P, tag):
         return [(tag + ".value", "non-finite pseudo-inverse")], 0.0
     r, kappa, _ = rank_info(A)
     a, p = max(amax(A), 1e-300), max(amax(P), 1e-300)
-    base = 2000 * (m + n) * EPS * kappa * max(m, n)
+    base = 4000 * (m + n + 1) * EPS * kappa * max(m, n, 1)
     out = []
     worst = 0.0
     for name, E, sc in (("APA=A", A @ P @ A - A, a), ("PAP=P", P @ A @ P - P, p),
@@ -919,7 +920,6 @@ def step_svd(ctx, cmd, ans, post):
         tag = op
         m, n = a.r, a.c
         if m == 0 or n == 0:
-            tag = "svd.zero_dim"
             ctx.stats.label("svd_zero_dim")
         if not no_exc(ctx, ans, tag):
             return True
@@ -949,8 +949,6 @@ def step_svd(ctx, cmd, ans, post):
     if op == "svd_solve":
         dx, a, b = cmd[1], M[cmd[2]], M[cmd[3]]
         tag = "svd_solve"
-        if a.r == 0 or a.c == 0:
-            tag = "svd.zero_dim"
         if b.r != a.r:
             need_exc(ctx, ans, "nonconf.svd_solve", 0)
             return True
@@ -958,8 +956,8 @@ def step_svd(ctx, cmd, ans, post):
             return True
         r, kappa, unamb = rank_info(a.val) if a.defined() else (0, 1.0, False)
         if a.defined() and b.defined() and unamb and kappa <= 1e6:
-            x = np.linalg.pinv(a.val, rcond=1e-10) @ b.val
-            tol = 200 * (a.r + a.c) * EPS * kappa * kappa * max(amax(x), amax(b.val) / max(amax(a.val), 1e-300), 1e-300)
+            x = np.linalg.pinv(a.val, rcond=1e-10) @ b.val if a.val.size else np.zeros(a.c)
+            tol = 200 * (a.r + a.c + 1) * EPS * kappa * kappa * max(amax(x), amax(b.val) / max(amax(a.val), 1e-300), 1e-300)
             ctx.stats.label("svd_solve_checked")
             install(ctx, dx, Reg("vec", a.c, None, -1, x), post, tag, tol=tol, name="svd_solve")
         else:
@@ -971,15 +969,13 @@ def step_svd(ctx, cmd, ans, post):
     if op == "svd_q":
         a = M[cmd[1]]
         tag = "svd_q"
-        if a.r == 0 or a.c == 0:
-            tag = "svd.zero_dim"
         if not no_exc(ctx, ans, tag):
             return True
         if a.defined():
             r, kappa, unamb = rank_info(a.val)
             Q = arr(ans["qxx"], (a.c, a.c))
             if unamb and kappa <= 1e5:
-                ref = np.linalg.pinv(a.val.T @ a.val, rcond=1e-11, hermitian=True)
+                ref = np.linalg.pinv(a.val.T @ a.val, rcond=1e-11, hermitian=True) if a.val.size else np.zeros((a.c, a.c))
                 tol = 200 * (a.r + a.c) * EPS * kappa * kappa * max(amax(ref), 1e-300)
                 e = amax(Q - ref) if np.all(np.isfinite(Q)) else np.inf
                 ctx.ratio("svd_qxx", e, tol)
@@ -990,8 +986,6 @@ def step_svd(ctx, cmd, ans, post):
     if op == "pinv":
         d, a = cmd[1], M[cmd[2]]
         tag = "pinv"
-        if a.r == 0 or a.c == 0:
-            tag = "svd.zero_dim"
         if not no_exc(ctx, ans, tag):
             return True
         act = post.get(d)
@@ -1070,7 +1064,7 @@ def step_misc(ctx, cmd, ans, post):
         if no_exc(ctx, ans, "norms") and a.defined():
             ref = {"l1": float(np.sum(np.abs(a.val))), "l2": float(np.sqrt(a.val @ a.val)), "linf": amax(a.val)}
             for k, v in ref.items():
-                tol = 8 * EPS * (a.r + 2) * v + 1e-300
+                tol = 32 * EPS * (a.r + 2) * v + 1e-300
                 e = abs(tofloat(ans[k]) - v)
                 ctx.ratio("norms", e, tol)
                 if not e <= tol:
@@ -1115,8 +1109,6 @@ def crash_tag(cmd, model):
     try:
         if op in ("svd", "svdr", "svd_solve", "svd_q", "pinv"):
             a = R(len(cmd) - 1) if op in ("svd", "svdr") else (R(2) if op in ("svd_solve", "pinv") else R(1))
-            if a is not None and (a.r == 0 or a.c == 0):
-                return "svd.zero_dim"
             if op == "svd_solve" and R(3) is not None and R(3).r != a.r:
                 return "nonconf.svd_solve"
             return op + ".crash"
